@@ -112,6 +112,16 @@ func RunTLC(o TLCOpts) (*TLCResult, error) {
 			}
 		}
 	}
+	// generated constant modules (extracted from the working tree by the driver's gen step)
+	if gens, err := os.ReadDir(filepath.Join(SpecDir(), "gen")); err == nil {
+		for _, e := range gens {
+			if strings.HasSuffix(e.Name(), ".tla") {
+				if b, err := os.ReadFile(filepath.Join(SpecDir(), "gen", e.Name())); err == nil {
+					_ = os.WriteFile(filepath.Join(scratch, e.Name()), b, 0o644)
+				}
+			}
+		}
+	}
 	for n, b := range o.ExtraFile {
 		if err := os.WriteFile(filepath.Join(scratch, n), b, 0o644); err != nil {
 			return nil, err
